@@ -505,8 +505,8 @@ example : Agreed (run Toy.env Toy.fresh [.loadPriv ⟨0, 0, ⟨0, 0⟩⟩, .load
 
 /-- the facts about `number_to_string` / `orderlen` / `beFixed` used below; they are theorems of the C12 owner
 (`Util.numberToString_eq`, `Util.lt_pow_orderlen_of_lt`, `Der.beFixed_length`, `Der.beVal_beFixed_of_lt`,
-`Util.orderlen_unique` in `Proofs/UtilNum.lean`, `Proofs/DerDigits.lean`) and are hypotheses here only until those
-files are delivered; `secret_bytes` (without `_partial`) is this theorem with them discharged. -/
+`Util.orderlen_unique` in `Proofs/UtilNum.lean`, `Proofs/DerDigits.lean`); this file stays Mathlib-light and takes
+them as a structure, `Props/C05b.lean` plugs them in. -/
 structure NumberToStringFacts : Prop where
   n2s : ∀ num order : Nat, num < 256 ^ Util.orderlen order →
     Util.numberToString num order = .ok (beFixed (Util.orderlen order) num)
@@ -515,14 +515,14 @@ structure NumberToStringFacts : Prop where
   val : ∀ l n : Nat, n < 256 ^ l → beVal (beFixed l n) = n
   uniq : ∀ n l : Nat, 1 ≤ n → n < 256 ^ l → 256 ^ (l - 1) ≤ n → Util.orderlen n = l
 
-/-- FULL STATEMENT (`secret_bytes`): as below without the hypothesis `F`.  Missing: nothing mathematical — `F` is
-proved in `Proofs/UtilNum.lean`/`Proofs/DerDigits.lean` (C12 owner), not yet importable from this file.
+/-- `F` is discharged in `Props/C05b.lean` (`C05b.number_to_string_facts`, from `Proofs/UtilNum.lean` /
+`Proofs/DerDigits.lean`), which states the property-level theorem `C05b.secret_bytes` with L = ⌈bitlen p / 8⌉.
 
-**secret_bytes_partial** — whenever `generate_sharedsecret()` returns `v` with `0 ≤ v < p` (p = the field prime of
+**secret_bytes_of_facts** — whenever `generate_sharedsecret()` returns `v` with `0 ≤ v < p` (p = the field prime of
 the agreed curve; C06: `x()` is reduced), `generate_sharedsecret_bytes()` returns exactly the big-endian bytes of
 `v`, left-padded with zeros to `L` bytes, where `L` is the byte length of `p`: `256^(L-1) ≤ p < 256^L`
 (= ⌈bitlen p / 8⌉); in particular the length does not depend on `v` and `v` is recovered by `beVal`. -/
-theorem secret_bytes_partial (F : NumberToStringFacts) (env : Env Crv Pt Ent) (s : State Crv Pt) (v : Int)
+theorem secret_bytes_of_facts (F : NumberToStringFacts) (env : Env Crv Pt Ent) (s : State Crv Pt) (v : Int)
     (sk : SKey Crv Pt) (hs : s.priv = some sk)
     (hv : getSharedSecret env s = .ok v) (h0 : 0 ≤ v) (hp : v < (env.fieldP sk.curve : Int)) :
     let p := env.fieldP sk.curve
